@@ -305,6 +305,72 @@ def ref_records_case(rng):
     return js, {"u": d}, {"record_branches_by_reference"}
 
 
+def same_short_name_case(rng):
+    """Records that share their short name across namespaces, data hinted ('-type' or tuple) with
+    the full name of the one or the other: a hint is compared by full name."""
+    fields_a = [{"name": f, "type": "int"} for f in rng.sample(["x", "y"], rng.randint(1, 2))]
+    fields_b = fields_a if rng.random() < 0.5 else [{"name": f, "type": "int"} for f in rng.sample(["x", "y", "z"], rng.randint(1, 3))]
+    ra = {"type": "record", "name": "Rec", "namespace": "a", "fields": fields_a}
+    rb = {"type": "record", "name": "Rec", "namespace": rng.choice(["b", "a.b", "ab"]), "fields": fields_b}
+    full_b = rb["namespace"] + ".Rec"
+    target = rng.choice(["a.Rec", full_b, "Rec", ".Rec"])
+    body = {f["name"]: rng.randint(-5, 5) for f in (fields_a if target == "a.Rec" or rng.random() < 0.5 else fields_b)}
+    d = dict(body, **{"-type": target}) if rng.random() < 0.6 else (target, body)
+    shape = rng.choice(["alone", "union", "union_rev", "in_map"])
+    if shape == "alone":
+        # (a tuple at the top of a non-union schema is not a hint: keep the dict spelling there)
+        if type(d) is tuple:
+            d = dict(body, **{"-type": target})
+        return ra, d, {"same_short_name", "hint_dash_type"}
+    u = [ra, rb] if shape != "union_rev" else [rb, ra]
+    if shape == "in_map":
+        return {"type": "map", "values": ["null"] + u}, {"k": d, "n": None}, {"same_short_name", "record_branches_by_reference"}
+    return {"type": "record", "name": "Top", "fields": [{"name": "u", "type": u}]}, {"u": d}, {"same_short_name", "record_branches_by_reference"}
+
+
+def special_sequences_case(rng):
+    """Array data handed over in the other non-string sequence types (array.array of several
+    item codes, tuple, range), conforming or with one out-of-range / ill-typed item at the
+    first, a middle or the last position."""
+    import array as _array
+
+    item = rng.choice(["int", "long", "double", "int", "long"])
+    n = rng.randint(1, 6)
+    lo, hi = {"int": (-(1 << 31), (1 << 31) - 1), "long": (-(1 << 63), (1 << 63) - 1), "double": (-(1 << 40), 1 << 40)}[item]
+    vals = [rng.choice([0, 1, -1, lo, hi, rng.randint(max(lo, -10**6), min(hi, 10**6))]) for _ in range(n)]
+    bad = rng.random() < 0.5 and item != "double"
+    if bad:
+        vals[rng.choice([0, n - 1, rng.randrange(n)])] = rng.choice([hi + 1, lo - 1]) if item == "int" else hi + 1
+    kind = rng.choice(["array_q", "array_Q", "array_d", "tuple", "list", "range"])
+    try:
+        if kind == "array_q":
+            seq = _array.array("q", vals)
+        elif kind == "array_Q":
+            seq = _array.array("Q", [abs(v) for v in vals])
+        elif kind == "array_d":
+            if item != "double":
+                return None
+            seq = _array.array("d", [float(v) for v in vals])
+        elif kind == "tuple":
+            seq = tuple(vals) if len(vals) != 2 else tuple(vals + [0])
+        elif kind == "range":
+            seq = range(vals[0], vals[0] + n) if lo <= vals[0] and vals[0] + n <= hi else range(n)
+        else:
+            seq = list(vals)
+    except (OverflowError, ValueError, TypeError):
+        return None
+    arr = {"type": "array", "items": item}
+    shape = rng.choice(["top", "field", "map", "union"])
+    feats = {"special_sequence", "sequence_" + kind}
+    if shape == "top":
+        return arr, seq, feats
+    if shape == "field":
+        return {"type": "record", "name": "Holds", "fields": [{"name": "n", "type": "int"}, {"name": "a", "type": arr}]}, {"n": 1, "a": seq}, feats
+    if shape == "map":
+        return {"type": "map", "values": arr}, {"k": seq, "e": []}, feats
+    return {"type": "record", "name": "Holds", "fields": [{"name": "a", "type": ["null", arr, "string"]}]}, {"a": seq}, feats
+
+
 def run_shard(spec):
     import fastavro as fa
     from fastavro.validation import ValidationError as V
@@ -338,11 +404,15 @@ def run_shard(spec):
     while i < spec["n"] and not sh.out_of_time():
         i += 1
         logical = rng.random() < 0.5
-        if rng.random() < 0.06:
-            js, d, feats = ref_records_case(rng)
+        x = rng.random()
+        fam = ref_records_case(rng) if x < 0.06 else same_short_name_case(rng) if x < 0.10 else special_sequences_case(rng) if x < 0.15 else None
+        if fam is not None:
+            js, d, feats = fam
             node, env = RS.build(js)
             case = {"schema": js, "node": node, "env": env, "datum": d, "features": set(feats)}
-            sh.count("record_branches_by_reference")
+            for f in ("record_branches_by_reference", "same_short_name", "special_sequence"):
+                if f in feats:
+                    sh.count(f)
         else:
             case = gen_case(rng, dict(bytes_defaults=0.15, logical=logical, union_default_any=True), dict(hints=0.2, size_budget=60, big=0.005, omit_nullable=0.15))
         sh.feat(case["features"])
